@@ -391,8 +391,9 @@ class MahalanobisMixin(BaseMetricLearner, MetricTransformer,
     pairs = check_input(pairs, type_of_inputs='tuples',
                         preprocessor=self.preprocessor_,
                         estimator=self, tuple_size=2)
-    if pairs.dtype.kind in 'iub':
-      # differences of (unsigned) integers would wrap around
+    if pairs.dtype not in (np.float64, np.float32):
+      # differences of (unsigned) integers would wrap around, and half
+      # precision data is handled in double precision as at fit time
       pairs = pairs.astype(float)
     pairwise_diffs = self.transform(pairs[:, 1, :] - pairs[:, 0, :])
     # (for MahalanobisMixin, the embedding is linear so we can just embed the
@@ -449,8 +450,9 @@ class MahalanobisMixin(BaseMetricLearner, MetricTransformer,
       """
       u = validate_vector(u)
       v = validate_vector(v)
-      if u.dtype.kind in 'iub':
-        # differences of (unsigned) integers would wrap around
+      if u.dtype not in (np.float64, np.float32):
+        # differences of (unsigned) integers would wrap around (and half
+        # precision is handled in double precision)
         u = u.astype(float)
       transformed_diff = (u - v).dot(components_T)
       dist = np.dot(transformed_diff, transformed_diff.T)
